@@ -1,76 +1,109 @@
 -------------------------- MODULE MerkleProof_Trace --------------------------
-(* C->S judgement for C18.  Every line of trace.ndjson is judged on its own    *)
-(* (pattern of Cells_Trace): the specification parses the recorded proof bag    *)
-(* with Boc!Parse, hashes it with Cells (Prim!Sha256) and evaluates ProofOK /   *)
-(* WalkReason of MerkleProof itself.  The library's own proof reader is not     *)
-(* involved.                                                                    *)
-(*  {"k":"Dict","src","mode","n":8,"cells":[..],"roots":[0],                    *)
-(*   "q":[{"key":"0101..","err":""|"e","panic":"","val":{"cells":[..],"roots":[0]},"proof":"hex"}, ..],         *)
-(*   "exp":[{"found":b,"v":"bits"}, ..]?}      exp: what the generator (S->C) said about the same keys            *)
-(*  {"k":"Walk","src","mode","cells":[..],"roots":[0],"ops":[{"op":"ref","i":0},..],"err":"","panic":"","proof":"hex","exphash":hex?} *)
+(* C->S judgement for C18.  A segment is the life of ONE boc.MerkleProver: the *)
+(* Reset line is NewMerkleProver(tree); the following lines are the requests it *)
+(* serves, in the order they were made.  The state of the specification is the  *)
+(* prover (T, R, immutable) and its open cursor sessions; every Cursor() and     *)
+(* every ProveKeyInHashmap opens a session with an EMPTY prune set (MerkleProof  *)
+(* section a').  An event is accepted only if it is a step of that machine and   *)
+(* the recorded proof bag - parsed with Boc!Parse and hashed with Cells          *)
+(* (Prim!Sha256) by the specification itself - is the proof the specification    *)
+(* requires for THIS request's prune set / key (ProofVerdict, WalkVerdict).      *)
+(*  {"k":"Reset","kind":"walk"|"dict","src","mode","n":8|0,"cells":[..],"roots":[0]}                                  *)
+(*  {"k":"Cursor","c":id}  {"k":"Ref","c":id,"i":0}  {"k":"Up","c":id}  {"k":"Prune","c":id}                            *)
+(*  {"k":"Create","c":id,"err":"","panic":"","proof":"hex","exphash":hex?}                                              *)
+(*  {"k":"Key","key":"0101..","err":""|"e","panic":"","val":{"cells":[..],"roots":[0]},"proof":"hex","exp":{found,v}?}  *)
+(* A rejected event prints <<"NOTE", line, clause, class>>; class names the     *)
+(* input class: twin / valueref (see KeyClass), leak (every pruned branch that   *)
+(* this request does not account for was pruned by an EARLIER request of the     *)
+(* same prover), plain.  Clauses starting with "domain:" mean the harness or the *)
+(* specification is inconsistent (never a verdict on the code).                  *)
 EXTENDS MerkleProof, Json
 
 Trace == ndJsonDeserialize("trace.ndjson")
 N == Len(Trace)
-VARIABLES l, v
+VARIABLES T, IT, R, n, present, sess, hist, l, seg
+\* T, R: the prover; IT = InfoTable(T) (kept so that it is computed once per prover); n: key width (0: no dictionary);
+\* present: the keys of the abstract dictionary T denotes; sess: open cursor sessions; hist: every occurrence pruned by
+\* an earlier request of this prover (only used to name findings)
+tvars == <<T, IT, R, n, present, sess, hist, l, seg>>
+Starts == {i \in 1..N : Trace[i].k = "Reset"}
+ASSUME \A i \in Starts : TLCSet(i, 0)
+E == Trace[l]
 Has(e, f) == f \in DOMAIN e
+Consume == l' = l + 1 /\ seg' = seg /\ TLCSet(seg, l + 1 - seg)
+Reject(reason, class) == PrintT(<<"NOTE", l, reason, class>>) /\ FALSE
 
-\* ------------------------------------------------------------------- Dict
-\* reason ("" = accepted) for query qi of a Dict event
-QReason(e, qi, T, IT, R, D) ==
-  LET q == e.q[qi]
-      k == StrToBits(q.key)
-      hit == {i \in 1..Len(D.items) : D.items[i].k = k}          \* the abstract dictionary decides presence
-      lk == Lookup(T, R, e.n, k)
-  IN IF Len(k) # e.n THEN "domain:key-width"
-     ELSE IF ~lk.ok \/ (lk.found # (hit # {})) THEN "domain:spec-inconsistent"
-     ELSE IF Has(e, "exp") /\ (e.exp[qi].found # (hit # {}) \/ (hit # {} /\ e.exp[qi].v # BitsToStr(lk.v.b))) THEN "domain:spec-inconsistent"
-     ELSE IF q.panic # "" THEN "panic"
-     ELSE IF hit = {} THEN (IF q.err # "" /\ q.proof = "" THEN "" ELSE "absent-key-proved")
-     ELSE IF q.err # "" THEN "present-key-error"
-     ELSE
-     LET it == D.items[CHOOSE i \in hit : TRUE]
-         V  == FromJson(q.val.cells)
-         IV == InfoTable(V)
-         vr == q.val.roots[1] + 1
-     IN \* the value returned beside the proof is the value the dictionary holds
-        IF ~(V[vr].b = it.v.b /\ Len(V[vr].r) = Len(it.v.r)
-             /\ \A j \in 1..Len(it.v.r) : ReprHash(IV[V[vr].r[j]]) = ReprHash(IT[it.v.r[j]])) THEN "returned-value"
-        ELSE ProofReason(HexToBytes(q.proof), T, IT, R, e.n, k)
+TReset ==
+  /\ E.k = "Reset" /\ l = seg
+  /\ LET T0 == FromJson(E.cells)  R0 == E.roots[1] + 1 IN
+     IF ~(LevelZero(T0) /\ WellFormed(T0)) THEN Reject("domain:tree", "plain")
+     ELSE LET D == IF E.n > 0 THEN DecEdge(T0, R0, E.n, <<>>) ELSE [ok |-> TRUE, items |-> <<>>] IN
+          \* the abstract dictionary decides presence; Lookup (used per request) must agree with it on every item
+          IF ~D.ok \/ \E i \in 1..Len(D.items) : LET lk == Lookup(T0, R0, E.n, D.items[i].k) IN ~(lk.ok /\ lk.found /\ lk.v = D.items[i].v)
+            THEN Reject("domain:not-a-dictionary", "plain")
+          ELSE /\ T' = T0 /\ R' = R0 /\ IT' = InfoTable(T0) /\ n' = E.n
+               /\ present' = {BitsToStr(D.items[i].k) : i \in 1..Len(D.items)}
+               /\ sess' = <<>> /\ hist' = {}
 
-JudgeDict(e) ==
-  LET T  == FromJson(e.cells)
-      R  == e.roots[1] + 1
-      IT == InfoTable(T)
-      D  == DecEdge(T, R, e.n, <<>>)
-  IN IF ~(LevelZero(T) /\ WellFormed(T) /\ D.ok) THEN PrintT(<<"NOTE", l, 0, "domain:not-a-dictionary", "plain">>) /\ FALSE
-     ELSE LET rs == [qi \in 1..Len(e.q) |-> QReason(e, qi, T, IT, R, D)]
-              bad == {qi \in 1..Len(e.q) : rs[qi] # ""}
-          IN bad = {} \/ ((\A qi \in bad : PrintT(<<"NOTE", l, qi, rs[qi], KeyClass(T, IT, R, e.n, StrToBits(e.q[qi].key))>>)) /\ FALSE)
+\* Cursor(): a new session, empty prune set - whatever earlier sessions pruned
+TCursor == /\ E.k = "Cursor" /\ sess' = NewSession(sess, E.c) /\ UNCHANGED <<T, IT, R, n, present, hist>>
 
-\* ------------------------------------------------------------------- Walk
-JudgeWalk(e) ==
-  LET T  == FromJson(e.cells)
-      R  == e.roots[1] + 1
-      IT == InfoTable(T)
-      run == RunOps(T, R, e.ops)
-  IN IF ~(LevelZero(T) /\ WellFormed(T) /\ run.ok) THEN PrintT(<<"NOTE", l, 0, "domain:walk", "plain">>) /\ FALSE
-     ELSE LET wv == IF e.panic # "" THEN [reason |-> "panic", sem |-> "none", hash |-> <<>>]
-                    ELSE IF e.err # "" THEN [reason |-> "create-proof-error", sem |-> "none", hash |-> <<>>]
-                    ELSE WalkVerdict(HexToBytes(e.proof), T, IT, R, run.s.ps)
-              \* S->C: under the occurrence reading the bag is the very proof the generator computed
-              agree == ~Has(e, "exphash") \/ wv.sem # "occurrence" \/ BytesToHex(wv.hash) = e.exphash
-          IN IF wv.reason = "" /\ ~agree THEN PrintT(<<"NOTE", l, 0, "domain:spec-inconsistent", "plain">>) /\ FALSE
-             ELSE IF wv.reason = "" THEN PrintT(<<"SEM", l, wv.sem>>)
-             ELSE PrintT(<<"NOTE", l, 0, wv.reason, "plain">>) /\ FALSE
+TOp == /\ E.k \in {"Ref", "Up", "Prune"}
+       /\ LET o == [op |-> IF E.k = "Ref" THEN "ref" ELSE IF E.k = "Up" THEN "up" ELSE "prune", i |-> IF E.k = "Ref" THEN E.i ELSE 0] IN
+          IF ~SessEnabled(T, R, sess, E.c, o) THEN Reject("domain:op-not-enabled", "plain")
+          ELSE sess' = SessApply(T, R, sess, E.c, o)
+       /\ UNCHANGED <<T, IT, R, n, present, hist>>
 
-Judge(e) == CASE e.k = "Dict" -> JudgeDict(e)
-              [] e.k = "Walk" -> JudgeWalk(e)
-              [] OTHER -> FALSE          \* Panic, Crash, unknown kinds: no action
+\* CreateProof(cursor of session c) = Proof(T, R, prune set of session c)
+TCreate ==
+  /\ E.k = "Create" /\ UNCHANGED <<T, IT, R, n, present, sess>>
+  /\ IF E.c \notin DOMAIN sess THEN Reject("domain:no-such-session", "plain")
+     ELSE IF E.panic # "" THEN Reject("panic", "plain")
+     ELSE IF E.err # "" THEN Reject("create-proof-error", "plain")
+     ELSE LET PS == sess[E.c].ps
+              wv == WalkVerdict(HexToBytes(E.proof), T, IT, R, PS)
+              \* prunes of earlier requests and of the other sessions of this prover
+              foreign == hist \cup UNION {sess[c2].ps : c2 \in DOMAIN sess \ {E.c}}
+              leak == wv.reason = "pruned-but-not-asked" /\ wv.extra \subseteq foreign
+          IN IF wv.reason # "" THEN Reject(wv.reason, IF leak THEN "leak" ELSE "plain")
+             \* S->C: under the occurrence reading the bag is the very proof the generator computed
+             ELSE IF Has(E, "exphash") /\ wv.sem = "occurrence" /\ BytesToHex(wv.hash) # E.exphash THEN Reject("domain:spec-inconsistent", "plain")
+             ELSE PrintT(<<"SEM", l, wv.sem>>) /\ hist' = hist \cup wv.psp \cup PS
 
-Init == l \in 1..N /\ v = "todo"
-Next == /\ v = "todo" /\ l' = l
-        /\ v' = (IF Judge(Trace[l]) THEN "ok" ELSE "bad")
-        /\ PrintT(<<"EV", l, v'>>)
-Spec == Init /\ [][Next]_<<l, v>>
+\* ProveKeyInHashmap(prover, root, key): its own session; present key => value + ProofOK, absent key => error
+TKey ==
+  /\ E.k = "Key" /\ UNCHANGED <<T, IT, R, n, present, sess>>
+  /\ LET k  == StrToBits(E.key)
+         lk == Lookup(T, R, n, k)
+         isPresent == E.key \in present
+     IN IF n = 0 \/ Len(k) # n THEN Reject("domain:key-width", "plain")
+        ELSE IF ~lk.ok \/ lk.found # isPresent THEN Reject("domain:spec-inconsistent", "plain")
+        ELSE IF Has(E, "exp") /\ (E.exp.found # isPresent \/ (isPresent /\ E.exp.v # BitsToStr(lk.v.b))) THEN Reject("domain:spec-inconsistent", "plain")
+        ELSE IF E.panic # "" THEN Reject("panic", "plain")
+        ELSE IF ~isPresent THEN (IF E.err # "" /\ E.proof = "" THEN hist' = hist ELSE Reject("absent-key-proved", "plain"))
+        ELSE IF E.err # "" THEN Reject("present-key-error", KeyClass(T, IT, R, n, k))
+        ELSE
+        LET V  == FromJson(E.val.cells)
+            IV == InfoTable(V)
+            vr == E.val.roots[1] + 1
+        IN \* the value returned beside the proof is the value the dictionary holds
+           IF ~(V[vr].b = lk.v.b /\ Len(V[vr].r) = Len(lk.v.r)
+                /\ \A j \in 1..Len(lk.v.r) : ReprHash(IV[V[vr].r[j]]) = ReprHash(IT[lk.v.r[j]])) THEN Reject("returned-value", KeyClass(T, IT, R, n, k))
+           ELSE LET pv == ProofVerdict(HexToBytes(E.proof), T, IT, R, n, k)
+                    kc == KeyClass(T, IT, R, n, k)
+                    \* the pruned branch that hides the key (or part of its value) was pruned by an earlier request
+                    leak == \/ pv.reason = "value:pruned" /\ pv.bad \in hist
+                            \/ pv.reason = "value:refs" /\ \E q \in pv.psp \cap hist : PathPrefix(PathOf(lk), q)
+                \* leak first: an earlier ACCEPTED request pruned that very occurrence, i.e. it passed the same fork on the
+                   \* other side and its own path survived - equal cells at that fork are not what hides the key
+                IN IF pv.reason # "" THEN Reject(pv.reason, IF leak THEN "leak" ELSE kc)
+                   ELSE hist' = hist \cup pv.psp
+
+TraceInit == /\ l \in Starts /\ seg = l
+             /\ T = <<>> /\ IT = <<>> /\ R = 0 /\ n = 0 /\ present = {} /\ sess = <<>> /\ hist = {}
+TraceNext == /\ l <= N /\ (l # seg => Trace[l].k # "Reset")
+             /\ (TReset \/ TCursor \/ TOp \/ TCreate \/ TKey)
+             /\ Consume
+TraceSpec == TraceInit /\ [][TraceNext]_tvars
+Report == \A i \in Starts : PrintT(<<"SEG", i, TLCGet(i)>>)
 =============================================================================
